@@ -37,3 +37,29 @@ Example C15_example :
   /\ remove_dot_segments [47;97;47;46;46;47;46;46;47;46;47;98;47;46;46] = Some [47].
 Proof. split; reflexivity. Qed.
 Print Assumptions C15_example.
+
+(** the invariant clause, per entry point: a URL with an authority produced by the
+    constructor or by with_path never has a "." or ".." segment in its stored path (every
+    input string, every URL, both backends); without an authority the constructor keeps
+    the canonicalised path - dot segments included - verbatim.  (build, /, joinpath and join:
+    extracted predicate c15_url_pred on the implementation and the model.) *)
+From Yarl Require Import Model.Url Proofs.DotInvProofs.
+Theorem C15_normalize_leaves_no_dots : forall p : str, no_dot_segments (normalize_path p) = true.
+Proof. exact normalize_path_nodots. Qed.
+Print Assumptions C15_normalize_leaves_no_dots.
+
+Theorem C15_constructor_invariant : forall (O : oracles) (B : backend) (s : str) (u : url),
+  encode_url O B s = Ok u -> nonempty (u_netloc u) = true -> no_dot_segments (u_path u) = true.
+Proof. exact encode_url_no_dot_segments. Qed.
+Print Assumptions C15_constructor_invariant.
+
+Theorem C15_with_path_invariant : forall (B : backend) (u : url) (p : str) (kq kf : bool),
+  nonempty (u_netloc u) = true -> no_dot_segments (u_path (with_path B u p false kq kf)) = true.
+Proof. exact with_path_no_dot_segments. Qed.
+Print Assumptions C15_with_path_invariant.
+
+Theorem C15_no_authority_verbatim : forall (O : oracles) (B : backend) s u sc nl p q f,
+  split_url (o_nfkc O) s = Ok (sc, nl, p, q, f) -> encode_url O B s = Ok u -> u_netloc u = [] ->
+  u_path u = match p with [] => [] | _ => Q B PATH_REQUOTER p end.
+Proof. exact encode_url_keeps_dots. Qed.
+Print Assumptions C15_no_authority_verbatim.
